@@ -510,6 +510,9 @@ class TextXVisitor(RRELVisitor):
                 # going down the parser model and finding root rules.
                 def _has_nonmatch_ref(rule):
                     for r in rule.nodes:
+                        if isinstance(r, (And, Not)):
+                            # Syntactic predicates yield no result.
+                            continue
                         if r.root:
                             _determine_rule_type(r._tx_class)
                             result = r._tx_class._tx_type != RULE_MATCH
@@ -534,6 +537,9 @@ class TextXVisitor(RRELVisitor):
                 else:
                     # Recursively append all referenced classes.
                     def _add_reffered_classes(rule, inh_by, start=False):
+                        if isinstance(rule, (And, Not)):
+                            # Syntactic predicates yield no result.
+                            return False
                         if rule.root and not start:
                             _determine_rule_type(rule._tx_class)
                             if rule._tx_class._tx_type != RULE_MATCH:
